@@ -24,29 +24,21 @@ Delivered(rec, n) == rec.clk[1] = n /\ rec.clk[2] = n /\ rec.clk[3] = n
 \* the three observers are consulted when PACE is set in the environment (C09's runs); other properties that use this
 \* module for the cycle accounting alone (C07: the five cycles of a dispatch) leave the devices out of their verdict
 Pace == "PACE" \in DOMAIN IOEnv
+\* Time is what these laws judge, not what a register write does to a device (that is C13 / C14 / C16): a step in which
+\* the guest -- or a dispatch push -- wrote the register concerned is not judged, and the next step starts from what was seen.
+Wrote(rec, lo, hi) == \E i \in 1..Len(rec.wr) : rec.wr[i][1] >= lo /\ rec.wr[i][1] <= hi
 Seen(rec) == [dact |-> rec.o.dact, doff |-> rec.o.doff, div |-> rec.o.div, q |-> rec.o.q]
 \* ... and the divider and the LCD position have moved by exactly the clocks delivered (a write to DIV clears the divider:
 \* before the catch-up when an instruction made it, after it when a dispatch push landed there)
 ClocksKeptPace(rec, disp) ==
-  LET nw == Len(rec.wr)
-      pre == IF disp /\ nw >= 2 THEN nw - 2 ELSE nw
-      cleared == \E i \in 1..pre : rec.wr[i][1] = 65284
-      pushed == \E i \in (pre + 1)..nw : rec.wr[i][1] = 65284
-      d0 == IF cleared THEN 0 ELSE d.div
-  IN /\ rec.o.div = (IF pushed THEN 0 ELSE (d0 + rec.clk[1]) % 65536)
-     /\ rec.o.q = (d.q + rec.clk[2]) % Frame
+  /\ (Wrote(rec, 65284, 65284) \/ rec.o.div = (d.div + rec.clk[1]) % 65536)
+  /\ (Wrote(rec, 65344, 65349) \/ rec.o.q = (d.q + rec.clk[2]) % Frame)
 DmaKeptPace(rec, disp) ==
   LET n == rec.clk[3] \div 4
-      nw == Len(rec.wr)
-      pre == IF disp /\ nw >= 2 THEN nw - 2 ELSE nw       \* the two pushes of a dispatch come last, after the devices caught up
-      restarted == \E i \in 1..pre : rec.wr[i][1] = 65350
-      pushed == \E i \in (pre + 1)..nw : rec.wr[i][1] = 65350      \* a dispatch whose push lands on 0xFF46 starts a transfer too
-      off0 == IF restarted THEN 0 ELSE d.doff
-      act0 == restarted \/ d.dact = 1
-      c == IF 160 - off0 < n THEN 160 - off0 ELSE n
-  IN IF pushed THEN rec.o.dact = 1 /\ rec.o.doff = 0
-     ELSE IF ~act0 THEN rec.o.dact = 0
-     ELSE IF off0 + c < 160 THEN rec.o.dact = 1 /\ rec.o.doff = off0 + c ELSE rec.o.dact = 0
+      c == IF 160 - d.doff < n THEN 160 - d.doff ELSE n
+  IN IF Wrote(rec, 65350, 65350) THEN TRUE
+     ELSE IF d.dact # 1 THEN rec.o.dact = 0
+     ELSE IF d.doff + c < 160 THEN rec.o.dact = 1 /\ rec.o.doff = d.doff + c ELSE rec.o.dact = 0
 
 NewHistory == IsEvent("init") /\ k' = Zero /\ d' = NoDma
 Passive == /\ l <= Len(Recs) /\ Recs[l].ev \in {"bw", "press", "release", "br", "bf", "tick"} /\ l' = l + 1 /\ UNCHANGED k
